@@ -138,6 +138,12 @@ Section WithTable.
         | None => None
         end
     | EDiscard p _ _ => mop ms p ODiscard is_ok
+    | EHandle p i a =>
+        (* the user handler runs only after CheckUpdate and validTwoPartyUpdate passed (signature not recorded here) *)
+        match valid_transition (mget ms p) (st i) a, two_party_ok (mget ms p) (st i) a (pidx (other p)) with
+        | OK, OK => Some ms
+        | _, _ => None
+        end
     | _ => Some ms
     end.
   Fixpoint run_mach (ms : mstate) (es : list ev) : option mstate :=
@@ -197,10 +203,57 @@ Section WithTable.
     end.
 End WithTable.
 
-Definition mismatches (sts : list state) (base : nat) (cs : list ccase) : list nat :=
+Definition mismatches_sts (sts : list state) (base : nat) (cs : list ccase) : list nat :=
   mismatches_from sts base cs.
 Definition where_bad (sts : list state) (c : ccase) : option nat :=
   match conv_tx sts (c_init c) with
   | Some t => first_bad sts (init_sys (c_P c) t) (c_evs c) 0
   | None => Some 0%nat
   end.
+
+(* ---------- compact input syntax written by the harness (parsing literal data is what costs time) ----------
+   A file carries a table of channels (id, app, assets) and a table of states given relative to their
+   channel (version, balances, locked funds, final flag); events refer to states by index and to
+   signatures by (signer key, state index); key 0 = a signature the harness could not attribute. *)
+Record chdesc := mkCh {
+  cd_id : string; cd_app : option string; cd_kind : option appkind;
+  cd_backends : list Z; cd_assets : list string }.
+Definition dummy_ch : chdesc := mkCh "" None None [] [].
+Definition cst : Type := N * N * list (list Z) * list suballoc * bool.
+Definition cs (c v : N) (b : list (list Z)) (l : list suballoc) (f : bool) : cst := (c, v, b, l, f).
+Definition expand (chs : list chdesc) (c : cst) : state :=
+  let '(ci, v, bals, locked, fin) := c in
+  let d := nth (N.to_nat ci) chs dummy_ch in
+  mkState (unhex (cd_id d)) v
+    (mkAlloc (map Z.to_N (cd_backends d)) (map (fun a => dec_be (unhex a)) (cd_assets d)) bals locked)
+    (option_map unhex (cd_app d)) [] fin.
+Definition chP (chs : list chdesc) (ci : N) : mparams :=
+  let d := nth (N.to_nat ci) chs dummy_ch in mkMP (unhex (cd_id d)) [1; 2] (option_map unhex (cd_app d)) (cd_kind d).
+
+(* numerals are binary (N): unary nat literals of the size of a state index are slow to elaborate *)
+Definition tk (k s : N) : tokref := if k =? 0 then TJunk 0 else TSig k (N.to_nat s).
+Definition pA := PA.  Definition pB := PB.  Definition rP := AsProp.  Definition rR := AsResp.
+Definition eSt p r (s a : N) := EStage p r (N.to_nat s) a.
+Definition eBad p (s : N) := EBad p (N.to_nat s).
+Definition eSig p r (k s : N) := ESig p r (tk k s).
+Definition eAdd p r (i k s : N) := EAddSig p r i (tk k s).
+Definition eReq p (s a k s' : N) := ESend p (RMReq (N.to_nat s) a (tk k s')).
+Definition eAcc p (v k s : N) := ESend p (RMAcc v (tk k s)).
+Definition eRej p (v : N) := ESend p (RMRej v).
+Definition eH p (s a : N) := EHandle p (N.to_nat s) a.
+Definition eD p (b : bool) := EDecide p b.
+Definition eEn p r (s : N) := EEnable p r (N.to_nat s).
+Definition eDi p r c := EDiscard p r c.
+Definition t2 (s ka sa kb sb : N) : rtx := Some (N.to_nat s, [Some (tk ka sa); Some (tk kb sb)]).
+Definition t1 (s : N) (l : list (option tokref)) : rtx := Some (N.to_nat s, l).
+Definition sn (ph : N) (stg cur : rtx) : rsnap := (ph, stg, cur).
+Definition rs (p : pid) (s : N) (r : result) : pid * nat * result := (p, N.to_nat s, r).
+Definition oS := RSuccess.  Definition oR := RRejected.  Definition oE := RError.
+Record kcase := mkK { k_ch : N; k_init : rtx; k_evs : list ev; k_finA : rsnap; k_finB : rsnap;
+                      k_res : list (pid * nat * result) }.
+Definition unk (chs : list chdesc) (k : kcase) : ccase :=
+  mkCCase (chP chs (k_ch k)) (k_init k) (k_evs k) (k_finA k) (k_finB k) (k_res k).
+Definition mismatches (chs : list chdesc) (csts : list cst) (base : nat) (ks : list kcase) : list nat :=
+  mismatches_from (map (expand chs) csts) base (map (unk chs) ks).
+Definition where_bad_k (chs : list chdesc) (csts : list cst) (k : kcase) : option nat :=
+  where_bad (map (expand chs) csts) (unk chs k).
